@@ -120,4 +120,16 @@ CLAIMS = {
              "arbitrary user mode code and overlapping requests beyond the flag guards are not decided.",
         technique="event-chain extraction; CFG must-pass typestate; who-may-write; sibling agreement over ConfigPlayer/ModeDevice subclasses",
         ref="4/C07"),
+    "C05": dict(
+        text="Static analysis of narrow structural necessary conditions of eject progress: every EjectTracker obtained from "
+             "start_eject is ended by end_eject on every non-cancelled path (handled timeouts included) before the "
+             "coroutine loops, returns or falls into the retry loop, and a cancelled eject cancels its tracker; the "
+             "count lock and the incoming-timeout lock are released on every path of an iteration / by end_eject on "
+             "every path; the future upstream devices await (_eject_future) is resolved before it is replaced, cleared "
+             "or the coroutine returns; a failed eject loops back only after reporting retry=True and gives up only at "
+             "max_tries after setting eject_broken, reporting retry=False and posting balldevice_<name>_broken; "
+             "requests are queued (FIFO) only when no ball is available and are re-served on balldevice_balls_available, "
+             "which its handlers never veto. Liveness in general, cancellation races and path-restore logic are not decided.",
+        technique="typestate pairing on the coroutine CFG (trackers, locks, futures); guard analysis; boolean-event handler return check",
+        ref="4/C05"),
 }
